@@ -17,6 +17,21 @@ def harnesses(tier):
                   "break/continue level = enclosing loops in the current context, capped; error iff none",
                   timeout=1200, cover_group="c02_loops", recursion_bounds=core.LOCATION_RECURSION)
           for n in range(0, 6 if tier == "thorough" else 5)]
+    for nm in ("with_function", "without_function"):
+        hs.append(Harness("c02_search_order_" + nm,
+                          "names 'x' and 'a/x'; environment answers symbolic: built-in present or not, its type (5 kinds) and availability; "
+                          "function %s" % ("present" if nm == "with_function" else "absent"),
+                          ["yash_env::semantics::command::search::classify"],
+                          "command search order: slash => external without lookup; special built-in > function > other built-in > PATH",
+                          timeout=1200, cover_group="c02_search", recursion_bounds=core.LOCATION_RECURSION))
+    if tier == "thorough" or True:
+        for nm, what in (("external", "no built-in of that name"), ("substitutive", "a substitutive built-in"), ("regular", "a mandatory built-in")):
+            hs.append(Harness("c02_search_path_" + nm,
+                              "name 'x', PATH='/b:/c' (concrete), %s, availability symbolic; which of /b/x, /c/x is executable: symbolic" % what,
+                              ["yash_env::semantics::command::search::search", "yash_env::semantics::command::search::search_path",
+                               "yash_env::semantics::command::search::resolve_builtin"],
+                              "PATH searched left to right; NotFound iff no candidate; substitutive built-in usable iff its external "
+                              "counterpart exists; non-portable built-ins refused", timeout=1500, cover_group="c02_search_path"))
     return hs
 
 
@@ -24,6 +39,8 @@ def run(tier, seed, only=None):
     out = core.Outcome(PID, tier, seed)
     out.engines = ["E1 kani 0.68 / CBMC 6.11 / CaDiCaL"]
     out.assumptions = [
+        "command search: classify() only (which kind of command a name denotes); the PATH walk of search() and the "
+        "substitutive-built-in / not-portable statuses are string and path processing on heap data - not decided",
         "only kernels are decided: which commands run, their order and $? are decided inside Command::execute implementations "
         "that spawn subshells with async closures (Kani 0.68 ICE) - outside the claim",
     ]
